@@ -68,12 +68,25 @@ rule and the standard encodings, packed / aligned x compiled / interpreted x end
     differing in one member is !=; bool against any(fields); assigning a fresh void changes nothing.  The hash law leaves out pairs
     that hold differently NAMED equal enum members / a member against its integer (v6_c17.HASH_ENUM_NAME_PAIRS: the unmodified
     library hashes members by name but compares them by value - reported).
+
+Zero-sized members inside runs (harness/v9_c17b.py): fixed-size structures in which members that occupy no byte (void, empty structures /
+unions and arrays of them, a structure of zero-sized members, `T x[0]` for integer / enum / float / structure / pointer elements, `char c[0]`,
+`char c[K0]`, `wchar w[0]`, `uint8 m[0][3]`, `void v[2]`) stand between two bit-fields of the same storage unit, behind a full unit, between
+runs, between ordinary members (integers, enums, char[k], arrays, nested structures - one with its own zero-sized cut), first and last;
+packed / aligned x compiled / interpreted x endianness, declared in one piece or completed by add_field / a start_update() block, used on
+their own, as a member `struct O { uint8 pre; T t; uint16 post; }` and as array elements `struct A { T ts[2]; uint8 post; }`.  With the
+bit masks of every leaf taken from the reader (one-bit inputs): dumps() / bytes(x) / x.write(fh) (also behind a prefix) of parsed instances
+are len(T) bytes and re-parse to the same values; assigning ANY leaf (the zero-sized ones too; `x.f`, `o.t.f`, `a.ts[i].f`, whole `o.t` /
+`a.ts[i]`) a donor's value changes no dump bit outside that leaf's mask, stores the donor's bits inside it and re-parses to the old values
+with that leaf replaced; keyword / positional / assigned constructions from the parsed values are == (hash equal when hashable), dump
+alike, bool == any(fields); T() is len(T) zero bytes; partial constructions equal T() with those fields assigned and dump the parsed
+dump restricted to the given fields' masks; one-bit-differing parses are !=.
 """
 from __future__ import annotations
 
 import itertools
 
-from .. import defs, impl, refimpl, s6_c17, u4_c17, v4_c17, v5_c17, v6_c17, v9_c17
+from .. import defs, impl, refimpl, s6_c17, u4_c17, v4_c17, v5_c17, v6_c17, v9_c17, v9_c17b
 from ..common import Case, Result, mkrng
 from ..structprops import rand_bytes
 
@@ -119,7 +132,14 @@ def run(env) -> Result:
                 "member gives !=, bool = any(fields), assigning a fresh void changes nothing. v9_c17: unions with 1..2 structure members (also "
                 "inside a structure and as array elements), default / zero / one-non-zero-byte (every position) / random / assigned-through-the-"
                 "nested-structure instances: bool() of the instance and of every structure-like member equals any(bool(field)) taken "
-                "recursively (the wrapper of a structure member of a union counts as the structure). distinct = "
+                "recursively (the wrapper of a structure member of a union counts as the structure). v9_c17b: structures with zero-sized members "
+                "(void, empty structures / unions and arrays of them, T x[0], char c[0], wchar w[0], 2-D arrays with a zero dimension) between two "
+                "bit-fields of one storage unit, behind a full unit, between runs, between ordinary members, first and last; packed/aligned x "
+                "compiled/interpreted x endianness x one-shot / add_field / start_update(); on their own, as a nested member and as array "
+                "elements; bit masks of every leaf from the reader's answers to one-bit inputs: dumps / bytes() / write() of parsed instances "
+                "are len(T) bytes and re-parse to the same values, assigning any leaf (zero-sized ones included, whole nested members too) "
+                "changes only that leaf's bits, stores the donor's bits and re-parses to the old values with that leaf replaced; keyword / "
+                "positional / assigned / partial constructions, ==, hash (when hashable), bool, T() as zero bytes, one-bit-differing pairs. distinct = "
                 "(definition, instance bytes, operation); non-trivial = >= 2 fields")
     dc = impl.dc()
     rnd = mkrng(env["seed"], "c17")
@@ -286,6 +306,8 @@ def run(env) -> Result:
     v6_c17.run_special(env, res, viol, mkrng(env["seed"], "c17:v6b"), 150 if tier == "quick" else 4000)
     # truth value of unions with structure members (handed out through a wrapper) and of their containers: F79, fixed
     v9_c17.run(env, res, viol, mkrng(env["seed"], "c17:v9"), 25 if tier == "quick" else 600)
+    # zero-sized members (void, empty structures, T x[0], char c[0]) between bit-fields of one unit, between members, first and last
+    v9_c17b.run(env, res, viol, mkrng(env["seed"], "c17:v9b"), 24 if tier == "quick" else 240)
     res.sample({"field_counts": counts, "colliding_names": RISKY[:8]})
     return res
 
